@@ -62,6 +62,8 @@ type TemplatesShard struct {
 func (s *TemplatesShard) MarshalJSON() ([]byte, error) {
 	s.RLock()
 	defer s.RUnlock()
+	vhook("DumpLocked", s, 0)
+	defer vhook("DumpDone", s, 0)
 
 	return json.Marshal(struct {
 		Templates map[uint32]Data
